@@ -94,17 +94,19 @@ Qed.
 (** non-vacuity: concrete chains inside the domain, one of them dropping; and the side condition is needed:
     a name as long as the name buffer (possible only beyond the configuration-line length) overflows it *)
 Local Open Scope string_scope.
-Definition ps5 : pstate := {| ruid := 5; euid := 0; stdin_tty := false; spawns := fun _ => true |}.
+(** (every registered function drops: the examples do not depend on the models of the individual filters; "noop" is registered in every build) *)
+Definition all_drop : fimpl -> list byte -> bool := fun _ _ => false.
 Example C07_nonvacuous_drop :
-  len (bytes ";nosuch:x;only_uid:4,5;;exclude_uid:5;noop") < ini_max_line C
-  /\ check_chain C (builtin C ps5) (bytes ";nosuch:x;only_uid:4,5;;exclude_uid:5;noop") = Ok false
-  /\ check_chain C (builtin C ps5) (bytes ";nosuch:x;only_uid:4,5;;exclude_uid:6;noop;:y") = Ok true.
+  len (bytes ";nosuch:x;;noop:a;nosuch") < ini_max_line C
+  /\ check_chain C all_drop (bytes ";nosuch:x;;noop:a;nosuch") = Ok false
+  /\ check_chain C all_drop (bytes ";nosuch:x;;:y;noopx;nosuch;") = Ok true
+  /\ check_chain C (fun _ _ => true) (bytes ";nosuch:x;;noop:a;nosuch") = Ok true.
 Proof. vm_compute. repeat split; reflexivity. Qed.
 Example C07_nonvacuous_elements :
   elements (bytes ";a:b:c;;d;:e;f:;") = [(bytes "a", bytes "b:c"); (bytes "d", []); ([], bytes "e"); (bytes "f", [])].
 Proof. vm_compute. reflexivity. Qed.
 Example C07_side_condition_needed :
-  check_chain C (builtin C ps5) (repeat x78 (N.to_nat (name_max C)) ++ [COLONB]) = Fault OOB_write.
+  check_chain C all_drop (repeat x78 (N.to_nat (name_max C)) ++ [COLONB]) = Fault OOB_write.
 Proof. vm_compute. reflexivity. Qed.
 
 Print Assumptions C07_conjunction.
